@@ -70,21 +70,32 @@ func verifLineHarness(prop string) {
 func verif_C19_line() { verifLineHarness("C19") }
 
 // verif_C19_limit: lines around the configured maximum at the first, second
-// and third position of the conversation, with the segmentation varied.
+// and third position of the conversation, between two chunks of a BDAT transfer
+// and right after its LAST chunk, with the segmentation varied.
 // A line (CRLF included) of length <= max is never refused for its length;
 // a line of length >= max+2 is answered 500 and the connection closed without
 // the line reaching a handler or the backend.
 func verif_C19_limit() {
 	max := 24
-	pos := verifChoice(3)
+	pos := verifChoice(5)
 	ll := nondetInt(max-3, max+4) // total line length including CRLF
 	seg := verifChoice(3)         // 0: one segment, 1: 1 octet per read, 2: 5 octets per read
 	be := &vbackend{}
 	s, lg := verifServer(be)
 	s.MaxLineLength = max
 	in := []byte{}
-	for i := 0; i < pos; i++ {
-		in = append(in, "NOOP\r\n"...)
+	nmail := 0
+	switch pos {
+	case 3: // between two chunks of a transfer
+		in = append(in, "EHLO c\r\nMAIL FROM:<a@v>\r\nRCPT TO:<b@v>\r\nBDAT 2\r\nab"...)
+		pos, nmail = 4, 1
+	case 4: // right after the LAST chunk
+		in = append(in, "EHLO c\r\nMAIL FROM:<a@v>\r\nRCPT TO:<b@v>\r\nBDAT 2 LAST\r\nab"...)
+		pos, nmail = 4, 1
+	default:
+		for i := 0; i < pos; i++ {
+			in = append(in, "NOOP\r\n"...)
+		}
 	}
 	// the probed line: "NOOP" padded with spaces
 	probe := []byte("NOOP")
@@ -120,9 +131,9 @@ func verif_C19_limit() {
 		verifReach("C19.over-limit")
 		verifAssert(len(reps) == pos+2 && isTooLong(reps[len(reps)-1]), "C19.over-long-line-refused")
 		verifAssert(vc.closed, "C19.over-long-line-closes")
-		verifAssert(be.count("Mail") == 0, "C19.nothing-after-too-long-line")
+		verifAssert(be.count("Mail") == nmail, "C19.nothing-after-too-long-line")
 		for _, r := range reps[1 : len(reps)-1] {
-			verifAssert(r.code == 250 && r.lines[0] == "2.0.0 I have successfully done nothing", "C19.no-part-of-over-long-line-executed")
+			verifAssert(r.code == 250, "C19.no-part-of-over-long-line-executed")
 		}
 		return
 	}
@@ -142,7 +153,7 @@ func verif_C19_limit() {
 		verifAssert(!tooLong && r.code == 250, "C19.line-within-max-never-refused")
 	}
 	if tooLong {
-		verifAssert(be.count("Mail") == 0, "C19.nothing-after-too-long-line")
+		verifAssert(be.count("Mail") == nmail, "C19.nothing-after-too-long-line")
 	}
 }
 
